@@ -242,4 +242,7 @@ TextsT == TextsQ \o << T("TX", <<10, 32>>), T("TX", <<1032, 120>>), T("TX", <<32
                       T("TX", <<1062>>), T("TX", <<93, 93>>) >>
 CDataT == CDataQ \o << T("CD", <<60, 60, 60, 60, 60>>), T("CD", <<32>>), T("CD", <<62>>) >>
 VocabThorough == Tags \o TextsT \o CDataT \o OtherQ \o << T("DT", <<97>>) >>
+\* random walks only (not exhaustive): blanks that come from references, CR LF, blank-only CDATA with a newline
+VocabSim == VocabThorough \o << T("TX", <<1032>>), T("TX", <<120, 1010>>), T("TX", <<1009, 120, 32>>), T("CD", <<10>>),
+                                 T("TX", <<120, 13, 10, 121>>), T("TX", <<1013, 10>>) >>
 =============================================================================
